@@ -29,6 +29,15 @@ def limit_hours(s):
 
 def end_of(p):
     n, u = p["dur"]
+    if u == "m":
+        # `+Nm`: the same day of the month N months later, clamped to the length of that month
+        import calendar
+        import datetime as _dt
+        d0 = _dt.datetime(1970, 1, 1) + _dt.timedelta(seconds=p["start"])
+        mm = d0.month - 1 + n
+        y, m = d0.year + mm // 12, mm % 12 + 1
+        d1 = d0.replace(year=y, month=m, day=min(d0.day, calendar.monthrange(y, m)[1]))
+        return int((d1 - _dt.datetime(1970, 1, 1)).total_seconds())
     return p["start"] + n * {"d": 86400, "w": 7 * 86400}[u]
 
 
